@@ -1148,7 +1148,8 @@ impl JsValue {
         }
 
         // 3. Let int be the mathematical value whose sign is the sign of number and whose magnitude is floor(abs(ℝ(number))).
-        let int = number.abs().floor().copysign(number) as i64;
+        // The remainder is taken before the conversion to an integer, since `as i64` saturates.
+        let int = (number.abs().floor().copysign(number) % 2f64.powi(8)) as i64;
 
         // 4. Let int8bit be int modulo 2^8.
         let int_8_bit = int % 2i64.pow(8);
@@ -1177,7 +1178,8 @@ impl JsValue {
         }
 
         // 3. Let int be the mathematical value whose sign is the sign of number and whose magnitude is floor(abs(ℝ(number))).
-        let int = number.abs().floor().copysign(number) as i64;
+        // The remainder is taken before the conversion to an integer, since `as i64` saturates.
+        let int = (number.abs().floor().copysign(number) % 2f64.powi(8)) as i64;
 
         // 4. Let int8bit be int modulo 2^8.
         let int_8_bit = int % 2i64.pow(8);
@@ -1249,7 +1251,8 @@ impl JsValue {
         }
 
         // 3. Let int be the mathematical value whose sign is the sign of number and whose magnitude is floor(abs(ℝ(number))).
-        let int = number.abs().floor().copysign(number) as i64;
+        // The remainder is taken before the conversion to an integer, since `as i64` saturates.
+        let int = (number.abs().floor().copysign(number) % 2f64.powi(16)) as i64;
 
         // 4. Let int16bit be int modulo 2^16.
         let int_16_bit = int % 2i64.pow(16);
@@ -1278,7 +1281,8 @@ impl JsValue {
         }
 
         // 3. Let int be the mathematical value whose sign is the sign of number and whose magnitude is floor(abs(ℝ(number))).
-        let int = number.abs().floor().copysign(number) as i64;
+        // The remainder is taken before the conversion to an integer, since `as i64` saturates.
+        let int = (number.abs().floor().copysign(number) % 2f64.powi(16)) as i64;
 
         // 4. Let int16bit be int modulo 2^16.
         let int_16_bit = int % 2i64.pow(16);
